@@ -251,7 +251,7 @@ theorem lut8_saturated (signed : Bool) (g : Int → Int) :
     not, and all 256 table indices: the `min` with `2^31 − 1`, `quantise_scale` vs `QuantizeMultiplierGreaterThanOne`,
     `diff_min`, the shifted difference fits int32 (no assert, no C overflow) and the two exponentials agree.
     Excluded (hypothesis `hcarry`): the significand of `real_beta` rounds up to the multiplier `2^31`, where the Python
-    *rejects* and TFLite renormalises — `softmax_exp_table_unnormalised_multiplier_witness`. -/
+    *rejects* and TFLite renormalises — `softmax_exp_table_m31_witness`. -/
 theorem softmax_exp_table_spec (q : Nat) (k : Int) (h1 : 2 ^ 52 ≤ q) (h2 : q < 2 ^ 53)
     (hgt : k - 26 < 0 ∨ q > 2 ^ (k - 26).toNat)
     (hcarry : ((SoftmaxRef.scaledClamped q k).1 + 2 ^ 21) / 2 ^ 22 ≠ 2 ^ 31) :
@@ -286,7 +286,7 @@ theorem softmax_exp_table_spec (q : Nat) (k : Int) (h1 : 2 ^ 52 ≤ q) (h2 : q <
     `quantise_scale` returns the unnormalised multiplier `2^31`, the first computed entry trips the int32 assert of
     `saturating_rounding_mul32`, while `QuantizeMultiplier` yields `(2^30, shift + 1)` and a table.  General in `q, k`;
     non-vacuous: `q = 2^53 − 2^6`, `k = 58` (beta 10610063·2^-23, input scale 13264529·2^-29). -/
-theorem softmax_exp_table_unnormalised_multiplier_witness (q : Nat) (k : Int) (h1 : 2 ^ 52 ≤ q) (h2 : q < 2 ^ 53)
+theorem softmax_exp_table_m31_witness (q : Nat) (k : Int) (h1 : 2 ^ 52 ≤ q) (h2 : q < 2 ^ 53)
     (hk : 0 < k - 26) (hle : q ≤ (2 ^ 31 - 1) * 2 ^ (k - 26).toNat) (hgt : q > 2 ^ (k - 26).toNat)
     (hcarry : (q + 2 ^ 21) / 2 ^ 22 = 2 ^ 31) :
     SoftmaxTable.generateExpTable (.fin false q (26 - k)) = .error (.fp .assert_) ∧
